@@ -463,7 +463,16 @@ class Interp:
             if e.get("@loopjump") and not e.get("@live", True):
                 env.setdefault("@jumped", [])
                 env["@jumped"] = list(env["@jumped"]) + [e]
-        env["@conds"] = env.get("@conds", [])
+        if len(live) == 1 and len(branches) == 2:
+            # the other branch left (return / raise / continue / break): what
+            # follows runs under the surviving branch's condition, exactly as if
+            # it were written in that branch
+            env["@conds"] = list(live[0][0].get("@conds", env.get("@conds", [])))
+            for k, v in live[0][0].items():
+                if isinstance(k, tuple) and k and k[0] == "@len":
+                    env[k] = v
+        else:
+            env["@conds"] = env.get("@conds", [])
 
     # ------------------------------------------------------------------- loops
     def _iter_elem(self, it, env, fi):
@@ -1132,6 +1141,10 @@ class Interp:
 
     def index(self, base, key):
         k = base[0] if isinstance(base, tuple) and base else None
+        if k == "when":
+            # a path annotation (which branch selected the value): indexing
+            # looks through it and keeps it
+            return ("when", base[1], self.index(base[2], key))
         if k in ("tuple", "list") and key[0] == "const" and isinstance(key[1], int):
             try:
                 return base[1:][key[1]]
@@ -1345,6 +1358,8 @@ class Interp:
         for a in args:
             if isinstance(a, tuple) and a and a[0] == "star":
                 inner = a[1]
+                while inner[0] == "when":
+                    inner = inner[2]
                 if inner[0] == "comp" and not inner[1].node.generators[0].ifs \
                         and inner[2][0] not in ("tuple", "list", "nt"):
                     n = len(fields) - len(flat)
